@@ -11,6 +11,7 @@ for log in sys.argv[1:]:
         d = f'/verif/seeded/{sid}'
         if not os.path.isdir(d) or not lines: continue
         meta = json.load(open(d + '/meta.json'))
+        if meta.get('manual_note'): continue      # detection text written by hand (runs outside the queue)
         head = [l for l in lines if l.startswith('check ')]
         if not head: continue
         m = re.match(r'^check (C\d+) exit=(\d+) (\d+) violation', head[0])
